@@ -31,9 +31,22 @@ def parseFrame? : List String → Option Frame
   | ["clo", c] => (ci? c).map .clo
   | _ => none
 
+/-- what a client sees over the socket: a response frame, or the connection going away -/
+def showSock : Out → String
+  | .ack => "ack"
+  | .opnResponse ch tk r => s!"opn_chan={ch}_token={tk}_req={r}"
+  | .service .getEndpoints r => s!"service_GetEndpointsResponse_req={r}"
+  | .service .createSession r => s!"service_CreateSessionResponse_req={r}"
+  | .closeErr _ => "eof"
+  | .ignored => "eof"
+
 def dstep (c : Conn) (toks : List String) : Conn × String :=
   match toks with
   | ["reset"] => (Conn.init, "ok")
+  | ["sock", specs] =>
+    match (specs.splitOn ",").mapM (fun sp => parseFrame? (sp.splitOn ".")) with
+    | some fs => (c, "ok [" ++ ",".intercalate ((run Conn.init fs).map showSock) ++ "]")
+    | none => (c, "bad-op")
   | _ =>
     match parseFrame? toks with
     | some f => match step c f with
